@@ -122,6 +122,9 @@ type Sibling struct {
 	Epilogue    []ast.Stmt
 	NodePkg     string // package of the case types ("go/ast" or dst)
 	NilCase     *ast.CaseClause
+	// Frame: the function that calls Func when the type switch lives in a helper (walk: Walk
+	// visits the node and closes with Visit(nil), a helper walks the children); nil otherwise.
+	Frame *ast.FuncDecl
 }
 
 // Ctx carries what the extractors need.
